@@ -68,6 +68,19 @@ var (
 		{S: "x509.subject:C=US,S=WA,O=o1", Valid: true, kind: "x509", attrs: map[string]string{"C": "US", "ST": "WA", "O": "o1"}},
 		{S: "x509.subject:C=US,ST=WA,O=o1,CN=release", Valid: true, kind: "x509", attrs: map[string]string{"C": "US", "ST": "WA", "O": "o1", "CN": "release"}},
 		{S: "x509.subject:C=DE,S=BY,O=o3", Valid: true, kind: "x509", attrs: map[string]string{"C": "DE", "ST": "BY", "O": "o3"}},
+		// colons inside the DN: the value of the identity is everything after the FIRST colon
+		{S: "x509.subject:CN=urn:example:signer,C=US,ST=WA,O=o5", Valid: true, kind: "x509", attrs: map[string]string{"C": "US", "ST": "WA", "O": "o5", "CN": "urn:example:signer"}},
+		{S: "x509.subject:C=US,ST=WA,O=o6:Unit-A", Valid: true, kind: "x509", attrs: map[string]string{"C": "US", "ST": "WA", "O": "o6:Unit-A"}},
+		{S: "x509.subject:C=US,ST=WA,O=o6:Unit-B", Valid: true, kind: "x509", attrs: map[string]string{"C": "US", "ST": "WA", "O": "o6:Unit-B"}},
+		{S: "x509.subject:C=US,ST=WA,O=o:,,,", kind: "x509"},
+		{S: "x509.subject:C=US,ST=WA,O=o:x,CN=a+OU=b", kind: "x509"},
+		{S: "x509.subject:C=US,ST=WA,O=o:x,C=DE", kind: "x509"},
+		{S: "x509.subject:C=US,ST=WA:x", kind: "x509"},
+		// attribute type names are what they are: lower-case spellings of the mandatory ones are other attributes
+		{S: "x509.subject:c=US,st=WA,o=o", kind: "x509"},
+		{S: "x509.subject:C=US,s=WA,O=o", kind: "x509"},
+		{S: "x509.subject:C=US,ST=WA,o=o", kind: "x509"},
+		{S: "x509.subject:C=US,ST=WA,O=o7,CN=a,cn=b", Valid: true, kind: "x509", attrs: map[string]string{"C": "US", "ST": "WA", "O": "o7", "CN": "a", "cn": "b"}},
 	}
 	scopesV = []tagged{{S: "*", Valid: true, kind: "wild"}, {S: "reg.io/a", Valid: true}, {S: "reg.io/a/b", Valid: true}, {S: "reg.io/ab", Valid: true}, {S: "localhost:5000/x", Valid: true}, {S: "r-1.example.com/a_b/c-d", Valid: true}, {S: "REG.io/a", Valid: true}, {S: "reg.io/b", Valid: true}, {S: "reg.io/c", Valid: true},
 		{S: "reg.io"}, {S: "reg.io/A"}, {S: "reg.io/a:tag"}, {S: "https://reg.io/a"}, {S: "reg.io/a/"}, {S: "reg.io//a"}, {S: "reg.io/*"}, {S: ""}, {S: "reg.io/a@sha256:abc"}, {S: "/a"}, {S: "**"},
@@ -560,8 +573,16 @@ var operators = []operator{
 	{"overlapping-identities", "", func(d *docT, rng *lib.Rand) bool {
 		if s := nonSkip(d, rng); s != nil {
 			// idsV[1] (C,ST,O=o1) is contained in idsV[2] (C,S,O=o1,CN=c); idsV[4] in nothing, idsV[1] twice is a duplicate
-			n := len(idsV)
-			pairs := [][2]int{{1, 2}, {2, 1}, {1, 1}, {3, 3}, {n - 3, n - 2}, {n - 2, n - 3}, {n - 1, 4}, {5, n - 1}, {n - 3, 1}}
+			ix := func(s string) int {
+				for i, t := range idsV {
+					if t.S == s {
+						return i
+					}
+				}
+				panic("harness bug: no identity " + s)
+			}
+			gA, sA, gDE := ix("x509.subject:C=US,S=WA,O=o1"), ix("x509.subject:C=US,ST=WA,O=o1,CN=release"), ix("x509.subject:C=DE,S=BY,O=o3")
+			pairs := [][2]int{{1, 2}, {2, 1}, {1, 1}, {3, 3}, {gA, sA}, {sA, gA}, {gDE, 4}, {5, gDE}, {gA, 1}}
 			p := pairs[rng.Intn(len(pairs))]
 			s.IDs = []tagged{idsV[p[0]], idsV[p[1]]}
 			if rng.Bool() {
